@@ -93,7 +93,9 @@ Lic ==
 Seg ==
   /\ e.ev = "seg"
   /\ LET k == e.kind IN
-     IF e.clrStatus = 200 /\ e.encStatus = 200 /\ initOK[k]
+     \* decidable only if the session got that far: clear and DRM segment served, init served, and (ClearKey) the
+     \* MPD that advertises the Laurl served
+     IF e.clrStatus = 200 /\ e.encStatus = 200 /\ initOK[k] /\ (H.cls = "cpix" \/ mpdOK)
      THEN /\ Clause("C10.roundtrip.decrypt", e.decErr = "" /\ KeyBound(lic[k], initKid[k], e.kdig),
                     <<"kind", k, "n", e.n, "t", e.t, "now", e.now, "deliver", e.deliver, "error", e.decErr,
                       "key_used", e.kdig, "init_kid", initKid[k], "licence", lic[k]>>)
